@@ -42,6 +42,11 @@ VARIANTS = {
     # like the shipped build but assertions on
     "plain": COMMON + ["-O2", "-g1"],
 }
+# Uninitialised automatic variables are filled by the compiler: with a garbage pattern in the main
+# sanitizer variant (adversarial content), with zeros in the twin variant "asanz".  A run whose
+# observable behaviour differs between the twins has read uninitialised memory.
+VARIANTS["asanz"] = VARIANTS["asan"] + ["-ftrivial-auto-var-init=zero"]
+VARIANTS["asan"] = VARIANTS["asan"] + ["-ftrivial-auto-var-init=pattern"]
 
 
 def lib_sources():
